@@ -24,7 +24,9 @@ LEVEL_TEXT = (
     "level of the IR: for every combination of constant asset lists, the fee placeholder, inputs used as values "
     "(IntoAssets(ExpectInput ..)), + and -, applying the fee and the input UTxOs and reducing yields a constant that "
     "denotes, class by class, the totals of the assigned UTxOs, the literals and the fee combined by integer "
-    "arithmetic - source - Ada(q) - fees is of this shape (C01_template_value, sumUtxo_spec). Per generated program (two layouts of the same tree) the real parse, analyze, lower, "
+    "arithmetic - source - Ada(q) - fees is of this shape (C01_template_value, sumUtxo_spec); (6) the independent "
+    "semantics the judge evaluates and the pipeline meet on the lovelace fragment: [[e]] is den(e) lovelace and the "
+    "reduced constant denotes den(e) lovelace (eval_lovelace, C01_spec_meets_pipeline). Per generated program (two layouts of the same tree) the real parse, analyze, lower, "
     "resolve_tx (apply, reduce, input selection, compile) is run; the lowered IR must equal the model's, and the "
     "transaction bytes, decoded by the Lean Conway reader, must hold exactly the inputs, outputs (address, lovelace, "
     "native assets, inline datum, in source order), mint, validity interval, signers, reference inputs, metadata "
@@ -39,14 +41,15 @@ LEVEL_NOTE = (
     "shadowing between scopes is not exercised."
 )
 PROP = "C01"
-TARGETS = ["Tx3Proofs.C01", "Tx3Proofs.C01Assets", "Tx3Proofs.C01Lovelace", "Tx3Proofs.C01MultiAsset", "Tx3Proofs.C01Template"]
+TARGETS = ["Tx3Proofs.C01", "Tx3Proofs.C01Assets", "Tx3Proofs.C01Lovelace", "Tx3Proofs.C01MultiAsset", "Tx3Proofs.C01Template", "Tx3Proofs.C01Spec"]
 THEOREMS = ["Tx3.Lang.eval_int", "Tx3.Lang.lower_int", "Tx3.Lang.C01_int_fragment", "Tx3.Lang.C01_sub_chain",
             "Tx3.Lang.C01_sub_chain_distinct",
             "Tx3.assetsOfChildren_amt", "Tx3.reread_canonical", "Tx3.C01_assets_add", "Tx3.C01_assets_neg",
             "Tx3.C01_assets_sub", "Tx3.C01_assets_sub_chain", "Tx3.arithAdd_ok", "Tx3.arithSub_ok",
             "Tx3.Lang.lower_lovelace", "Tx3.Lang.C01_lovelace_fragment",
             "Tx3.Lang.lower_multi", "Tx3.Lang.C01_multi_asset_fragment",
-            "Tx3.sumUtxo_spec", "Tx3.C01_template_value"]
+            "Tx3.sumUtxo_spec", "Tx3.C01_template_value",
+            "Tx3.Lang.eval_lovelace", "Tx3.Lang.C01_spec_meets_pipeline"]
 RULE = (
     "cases = generated programs over the core fragment: env (Int, Bytes), 2-3 parties, a policy, an asset, a record "
     "and a variant type; one transaction with 1-3 positive Int parameters, optionally an unconstrained Int, a Bytes "
